@@ -29,15 +29,64 @@ def _rng():
     return _S["rng"]
 
 
+_FP = []  # armed failpoints: dicts(file, func, exc, skip, count, fired, pid_only)
+
+
+def failpoint(file, func, exc, skip=0, count=1, when=None, on_fire=None):
+    """source-free failpoint: the `count` calls after the first `skip` calls of function `func` in toasty source file `file`
+    raise `exc` (an exception instance or a callable returning one) at their first statement - an I/O error inside toasty's
+    own read / write path (optionally only when `when(locals_of_the_call)` is true), without editing /repo and without replacing any attribute a changed implementation might bypass.
+    Inherited by forked processes (each counts for itself). Returns the record; record['fired'] counts injections in THIS
+    process."""
+    rec = dict(file=file, func=func, exc=exc, skip=skip, count=count, fired=0, seen=0, lines={}, when=when, on_fire=on_fire)
+    _FP.append(rec)
+    _ensure_monitoring()
+    return rec
+
+
+def clear_failpoints():
+    del _FP[:]
+
+
+def _ensure_monitoring():
+    mon = sys.monitoring
+    if mon.get_tool(TOOL) is None:
+        mon.use_tool_id(TOOL, "verif-sched")
+    mon.register_callback(TOOL, mon.events.LINE, _on_line)
+    mon.set_events(TOOL, mon.events.LINE)
+    mon.restart_events()
+
+
+def _check_failpoints(code, line):
+    for rec in _FP:
+        if code.co_name == rec["func"] and code.co_filename.endswith("/toasty/" + rec["file"]):
+            first = rec["lines"].setdefault(code, line)  # the first statement seen for this code object = function entry
+            if line != first:
+                continue
+            if rec["when"] is not None and not rec["when"](sys._getframe(2).f_locals):
+                continue  # `when` sees the local variables (arguments) of the call about to fail
+            rec["seen"] += 1
+            if rec["seen"] > rec["skip"] and rec["fired"] < rec["count"]:
+                rec["fired"] += 1
+                if rec["on_fire"] is not None:
+                    rec["on_fire"]()
+                e = rec["exc"]
+                raise (e() if callable(e) and not isinstance(e, BaseException) else e)
+
+
 def _on_line(code, line):
     mon = sys.monitoring
     fn = code.co_filename
+    if _FP and "/toasty/" in fn:
+        _check_failpoints(code, line)
+    if not _S["on"]:
+        return None if (_FP and "/toasty/" in fn) else mon.DISABLE
     if not fn.endswith(_S["files"]) or "/toasty/" not in fn:
-        return mon.DISABLE
+        return None if (_FP and "/toasty/" in fn) else mon.DISABLE  # armed failpoints need every toasty statement to stay watched
     c = _S["counts"].get(code, 0) + 1
     _S["counts"][code] = c
     if c > _S["hot"]:
-        return mon.DISABLE  # a hot loop: stop watching this statement
+        return None if _FP else mon.DISABLE  # a hot loop: stop watching this statement
     r = _rng()
     if _S["spent"] >= _S["budget"]:
         return None
@@ -73,11 +122,12 @@ def install(seed, p=0.04, files=("pyramid.py", "par_util.py", "multi_tan.py", "m
 
 def uninstall():
     mon = sys.monitoring
+    _S["on"] = False
+    del _FP[:]
     if mon.get_tool(TOOL) is not None:
         mon.set_events(TOOL, 0)
         mon.register_callback(TOOL, mon.events.LINE, None)
         mon.free_tool_id(TOOL)
-    _S["on"] = False
 
 
 def stats():
